@@ -4,6 +4,15 @@ From Coq Require Import List Bool Arith Lia Permutation Sorted.
 From Atlas Require Import Plan.SortModel Plan.SortDfs Plan.SortReplay Plan.SortProofs.
 Import ListNotations.
 
+(** * tables: name n, current object id 2n, desired object id 2n+1 *)
+Definition cur (n : nat) : table := mkT n 0 (2 * n).
+Definition des (n : nat) : table := mkT n 0 (2 * n + 1).
+(* catalogues are written with table names; the catalogue itself keys tables by [qn] (schema 0 here) *)
+Definition ktabs (tabs : list nat) : list nat := map (qcode 0) tabs.
+Definition kfks (fks : list (nat * nat * nat)) : list (nat * nat * nat) :=
+  map (fun e => (qcode 0 (fst (fst e)), snd (fst e), qcode 0 (snd e))) fks.
+Definition kcat (tabs : list nat) (fks : list (nat * nat * nat)) : cat := mkCat (ktabs tabs) (kfks fks).
+
 Ltac explode :=
   repeat match goal with
   | H : False |- _ => destruct H
@@ -14,6 +23,9 @@ Ltac explode :=
   | H : _ = ?x |- _ => is_var x; subst x
   | H : In _ _ |- _ => simpl in H
   end.
+
+(* [qn] of a concrete table is a numeral *)
+Ltac norm := cbv [qn qcode cur des t_name t_schema Nat.add Nat.mul] in *.
 
 Ltac wf_tac :=
   constructor; simpl;
@@ -33,12 +45,8 @@ Ltac cons_tac :=
     repeat match goal with H : ModifyTable _ _ = ModifyTable _ _ |- _ => inversion H; clear H; subst end;
     simpl; auto 10
   | intros x f Hx Hf; explode; simpl in *; explode; simpl; auto 10
-  | intros e He Hd Hn; explode; simpl in *; explode; try congruence
+  | intros e He Hd Hn; explode; simpl in *; explode; try congruence; try (exfalso; norm; congruence)
   | intros x Hx; explode; simpl; try exact I; intros y Hy; explode; simpl; eauto 10 ].
-
-(** * tables: name n, current object id 2n, desired object id 2n+1 *)
-Definition cur (n : nat) : table := mkT n (2 * n).
-Definition des (n : nat) : table := mkT n (2 * n + 1).
 
 (** * The former counterexample (finding C04-modfk-detached, repaired in dependsOn): re-point a foreign key
       of kept table 0 to created table 1, which references 0.  The cycle 0 <-> 1 makes DetachCycles detach;
@@ -46,7 +54,7 @@ Definition des (n : nat) : table := mkT n (2 * n + 1).
 Definition cx_cs : list change :=
   [ ModifyTable (des 0) [ModifyFK (mkFK 5 (cur 0) (cur 2)) (mkFK 5 (des 0) (des 1))];
     AddTable (des 1) [mkFK 21 (des 1) (des 0)] ].
-Definition cx_cat : cat := mkCat [0; 2] [(0, 5, 2)].
+Definition cx_cat : cat := kcat [0; 2] [(0, 5, 2)].
 Definition cx_plan : list change :=
   [ AddTable (des 1) [];
     ModifyTable (des 0) [ModifyFK (mkFK 5 (cur 0) (cur 2)) (mkFK 5 (des 0) (des 1))];
@@ -63,7 +71,7 @@ Lemma cx_runs : sortMap cx_cs = SMCycle /\ DetachCycles cx_cs = DCOk
       AddTable (des 1) [];
       ModifyTable (des 1) [AddFK (mkFK 21 (des 1) (des 0))] ] /\
   plan cx_cs = POk cx_plan /\
-  replay cx_plan cx_cat = Some (mkCat [1; 0; 2] [(0, 5, 1); (1, 21, 0)]).
+  replay cx_plan cx_cat = Some (kcat [1; 0; 2] [(0, 5, 1); (1, 21, 0)]).
 Proof. repeat split; vm_compute; reflexivity. Qed.
 
 (** * Three new tables referencing each other in a 3-cycle *)
@@ -71,7 +79,7 @@ Definition c3_cs : list change :=
   [ AddTable (des 0) [mkFK 21 (des 0) (des 1)];
     AddTable (des 1) [mkFK 22 (des 1) (des 2)];
     AddTable (des 2) [mkFK 20 (des 2) (des 0)] ].
-Definition c3_cat : cat := mkCat [] [].
+Definition c3_cat : cat := kcat [] [].
 Definition c3_plan : list change :=
   [ AddTable (des 0) []; AddTable (des 1) []; AddTable (des 2) [];
     ModifyTable (des 0) [AddFK (mkFK 21 (des 0) (des 1))];
@@ -83,7 +91,7 @@ Proof. wf_tac. Qed.
 Lemma c3_cons : consistent c3_cat c3_cs.
 Proof. cons_tac. Qed.
 Lemma c3_runs : sortMap c3_cs = SMCycle /\ plan c3_cs = POk c3_plan /\
-  replay c3_plan c3_cat = Some (mkCat [2; 1; 0] [(0, 21, 1); (1, 22, 2); (2, 20, 0)]).
+  replay c3_plan c3_cat = Some (kcat [2; 1; 0] [(0, 21, 1); (1, 22, 2); (2, 20, 0)]).
 Proof. repeat split; vm_compute; reflexivity. Qed.
 
 (** * A new self-referencing table; two dropped tables referencing each other, one also itself *)
@@ -91,7 +99,7 @@ Definition sr_cs : list change :=
   [ AddTable (des 0) [mkFK 20 (des 0) (des 0)];
     DropTable (cur 1) [mkFK 1 (cur 1) (cur 1); mkFK 2 (cur 1) (cur 2)];
     DropTable (cur 2) [mkFK 1 (cur 2) (cur 1)] ].
-Definition sr_cat : cat := mkCat [1; 2] [(1, 1, 1); (1, 2, 2); (2, 1, 1)].
+Definition sr_cat : cat := kcat [1; 2] [(1, 1, 1); (1, 2, 2); (2, 1, 1)].
 Definition sr_plan : list change :=
   [ AddTable (des 0) [mkFK 20 (des 0) (des 0)];
     ModifyTable (cur 1) [DropFK (mkFK 2 (cur 1) (cur 2))];
@@ -109,7 +117,7 @@ Proof.
     eexists; split; [right; left; reflexivity|split; reflexivity].
 Qed.
 Lemma sr_runs : sortMap sr_cs = SMCycle /\ plan sr_cs = POk sr_plan /\
-  replay sr_plan sr_cat = Some (mkCat [0] [(0, 20, 0)]).
+  replay sr_plan sr_cat = Some (kcat [0] [(0, 20, 0)]).
 Proof. repeat split; vm_compute; reflexivity. Qed.
 
 (** * No cycle: a re-pointed key to a created table, a chain of created tables, a drop *)
@@ -118,7 +126,7 @@ Definition ch_cs : list change :=
     AddTable (des 1) [mkFK 22 (des 1) (des 2)];
     AddTable (des 2) [];
     DropTable (cur 3) [] ].
-Definition ch_cat : cat := mkCat [0; 3] [(0, 5, 3)].
+Definition ch_cat : cat := kcat [0; 3] [(0, 5, 3)].
 Definition ch_plan : list change :=
   [ AddTable (des 2) [];
     AddTable (des 1) [mkFK 22 (des 1) (des 2)];
@@ -134,7 +142,7 @@ Proof.
   simpl. split; [auto|]. split; reflexivity.
 Qed.
 Lemma ch_runs : sortMap ch_cs = SMOk [2; 1; 0] /\ plan ch_cs = POk ch_plan /\
-  replay ch_plan ch_cat = Some (mkCat [1; 2; 0] [(1, 22, 2); (0, 5, 1)]).
+  replay ch_plan ch_cat = Some (kcat [1; 2; 0] [(1, 22, 2); (0, 5, 1)]).
 Proof. repeat split; vm_compute; reflexivity. Qed.
 
 (* another order sort.Slice may produce for the chain example (the drop, index 0, between the creations) *)
